@@ -25,7 +25,8 @@ LEVEL_TEXT = (
     "duplicated names refused); enum tag width, payload size and tag number come from the same three helpers in all four "
     "places; the fixed-width setters use the width of the type they are named after; the gate contains no trapping "
     "arithmetic on payloads; and each as_bits call in literal_arg / set_literal / compile_with_constants is dominated by "
-    "the true edge of is_of_type on the same literal. Not decided: print/parse round trip, bit order inside integers, the "
+    "the true edge of is_of_type on the same literal; the range gates never compare a lossy cast of a payload (L1b); the reader decodes "
+    "as many array elements as the type says (L7). Not decided: print/parse round trip, bit order inside integers, the "
     "identity program, decoding of malformed bit strings, and the range checks the *parser* path applies to unsuffixed "
     "literals (check_or_constrain_*: value-level comparisons inside the type checker).")
 LEVEL_NOTE = ("Trusted: rustc MIR; UnsignedNumType::max / SignedNumType::{min,max} return the bounds of the named type (token.rs, "
